@@ -27,6 +27,8 @@ type formulaSite struct {
 	via        string   // the unexported helper the site was read in, at one of its call sites
 	assume     []string // for boolean sites: conditions known to hold where the site stands (resolved NNF), see assumptionsAt
 	guard      string   // for updates of fields / elements and arguments of calls: the conditions under which the statement runs (resolved NNF conjuncts, sorted; tests of errors and nil left out)
+	pnamed     string   // the named form with only the locals the reviewed function did NOT have read through ("" when it is the named form)
+	rtarget    string   // the assigned place with single-definition locals read through (node.Weight -> pr.nodes[i].Weight), "" when unreadable
 }
 
 func hasArith(e ast.Expr) bool {
@@ -522,6 +524,16 @@ func formulasIn(pk *packages.Package, fd *ast.FuncDecl, fn string, subst map[typ
 			fdefs[o] = d
 		}
 	}
+	// the single-definition locals the reviewed function did not have (`slotsPerEpoch := uint64(spec.SLOTS_PER_EPOCH)`
+	// hoisted out of an expression): read through, the formula stands in the reviewed function's own names
+	fdefsNew := map[types.Object]localDef{}
+	if rev := reviewedTokens(fn); len(rev) > 0 {
+		for o, d := range fdefs {
+			if _, fromCaller := callerDefs[o]; !fromCaller && !rev[o.Name()] {
+				fdefsNew[o] = d
+			}
+		}
+	}
 	fparents := parentMap(fd.Body)
 	var curStmt ast.Node
 	var guardNode ast.Node // the statement (or call) the formula being added belongs to
@@ -579,7 +591,7 @@ func formulasIn(pk *packages.Package, fd *ast.FuncDecl, fn string, subst map[typ
 				polyAbstract = false
 				res := boolForm(info, rhs, fdefs)
 				t := tok.String() + " "
-				out = append(out, formulaSite{fn, target, tok, pos, t + named, t + abs, types.ExprString(rhs), t + res, t + ra, "", assumptionsAt(info, fparents, curStmt, fdefs), ""})
+				out = append(out, formulaSite{fn, target, tok, pos, t + named, t + abs, types.ExprString(rhs), t + res, t + ra, "", assumptionsAt(info, fparents, curStmt, fdefs), "", "", ""})
 				return
 			}
 		}
@@ -637,6 +649,23 @@ func formulasIn(pk *packages.Package, fd *ast.FuncDecl, fn string, subst map[typ
 		if strings.ContainsAny(target, ".[") || strings.HasPrefix(target, "call:") {
 			site.guard = guardOf(info, fparents, guardNode, fdefs)
 		}
+		if len(fdefsNew) > 0 {
+			savedReach := polyReach
+			polyReach = nil // reaching definitions would read the reviewed function's own locals through as well
+			pp, ok := exprPoly(info, rhs, fdefsNew, stop, 0)
+			polyReach = savedReach
+			if ok {
+				if tp, pp := accum(tok, lhs, pp, fdefsNew, false); tp.String()+" "+pp.String() != site.named {
+					site.pnamed = tp.String() + " " + pp.String()
+				}
+			}
+		}
+		if l := lhsOrNil(lhs); l != nil {
+			polySelfObj, polySelfText = nil, ""
+			if rp, ok := exprPoly(info, l, fdefs, nil, 0); ok {
+				site.rtarget = rp.String()
+			}
+		}
 		out = append(out, site)
 	}
 	// a predicate written as guards (`if !a { return false }; …; return c`) computes a && … && c: read as one formula
@@ -657,7 +686,7 @@ func formulasIn(pk *packages.Package, fd *ast.FuncDecl, fn string, subst map[typ
 				polyAbstract = false
 				if named != "" && abs != "" && (strings.HasPrefix(named, "and(") || strings.HasPrefix(named, "or(")) {
 					wholeBool = true
-					out = append(out, formulaSite{fn, "return#0", token.ASSIGN, fd.Body.Pos(), "= " + named, "= " + abs, "guards and final return", "= " + named, "= " + abs, "", nil, ""})
+					out = append(out, formulaSite{fn, "return#0", token.ASSIGN, fd.Body.Pos(), "= " + named, "= " + abs, "guards and final return", "= " + named, "= " + abs, "", nil, "", "", ""})
 				}
 			}
 		}
@@ -915,6 +944,58 @@ func formulaLocalsOf(fn string) map[string]bool {
 	return m
 }
 
+var (
+	constStepRe = regexp.MustCompile(`^[+-]= \d+$`)
+	constInitRe = regexp.MustCompile(`^= \d+$`)
+)
+
+var shiftedIndexRe = regexp.MustCompile(`\[(-?\d+\+([A-Za-z_][A-Za-z0-9_]*))\]`)
+
+// uniformIndexShift: today's resolved forms are the reviewed ones once ONE index expression c+v (v a plain name, the
+// same c everywhere) is read as v, and v occurs nowhere else — neither in the forms nor in the resolved targets, which
+// must carry the same index. Returns "[c+v] for [v]", or "".
+func uniformIndexShift(res, rtargets, want []string) string {
+	if len(res) == 0 || len(res) != len(rtargets) || len(res) != len(notAbsorbed(want)) {
+		return ""
+	}
+	var idx, v string
+	all := append(append([]string{}, res...), rtargets...)
+	for _, x := range all {
+		for _, m := range shiftedIndexRe.FindAllStringSubmatch(x, -1) {
+			if idx == "" {
+				idx, v = m[1], m[2]
+			} else if m[1] != idx {
+				return ""
+			}
+		}
+	}
+	if idx == "" {
+		return ""
+	}
+	var back []string
+	for k, x := range all {
+		if x == "" {
+			return ""
+		}
+		y := strings.ReplaceAll(x, "["+idx+"]", "[\x00]")
+		for _, t := range identTokens(y) {
+			if t == v {
+				return "" // the counter is used outside the shifted index as well
+			}
+		}
+		if !strings.Contains(y, "[\x00]") && k >= len(res) {
+			return "" // the place assigned to does not move with the value
+		}
+		if k < len(res) {
+			back = append(back, strings.ReplaceAll(y, "[\x00]", "["+v+"]"))
+		}
+	}
+	if !sameMultiset(back, notAbsorbed(want)) {
+		return ""
+	}
+	return "[" + idx + "] for [" + v + "]"
+}
+
 var reviewedTokensMemo = map[string]map[string]bool{}
 
 // reviewedTokens: every identifier that occurs in a reviewed form or as a reviewed target of fn.
@@ -1042,7 +1123,7 @@ func lhsOrNil(e ast.Expr) ast.Expr {
 
 func addLit(out *[]formulaSite, fn, target, v string, pos token.Pos) {
 	v = "+= " + v
-	*out = append(*out, formulaSite{fn, target, token.ADD_ASSIGN, pos, v, v, v, v, v, "", nil, ""})
+	*out = append(*out, formulaSite{fn, target, token.ADD_ASSIGN, pos, v, v, v, v, v, "", nil, "", "", ""})
 }
 
 var formulaHelpers = map[string][]string{}
@@ -1136,7 +1217,7 @@ func init() {
 				if s.via != "" {
 					continue
 				}
-				fmt.Printf("%s\t%s\t%s\t%s\t%s\t%s\t%s\t%s\t%s\n", s.fn, s.target, s.tok, s.named, s.abs, s.text, s.res, s.ra, s.guard)
+				fmt.Printf("%s\t%s\t%s\t%s\t%s\t%s\t%s\t%s\t%s\t%s\t%s\n", s.fn, s.target, s.tok, s.named, s.abs, s.text, s.res, s.ra, s.guard, s.rtarget, s.pnamed)
 			}
 		}
 		os.Exit(0)
@@ -1202,8 +1283,9 @@ func ruleFormulaSpec(c *Ctx) {
 	type forms struct {
 		guards                     []string
 		named, abs, res, ra, texts []string
+		rtargets, pnamed           []string
 		pos                        token.Pos
-		via                        bool
+		via, hasPnamed             bool
 		assume                     []string
 	}
 	gather := func(sites []formulaSite, keep func(formulaSite) bool) map[string]*forms {
@@ -1223,6 +1305,13 @@ func ruleFormulaSpec(c *Ctx) {
 			f.ra = append(f.ra, s.ra)
 			f.texts = append(f.texts, s.text)
 			f.guards = append(f.guards, s.guard)
+			f.rtargets = append(f.rtargets, s.rtarget)
+			if s.pnamed != "" {
+				f.pnamed = append(f.pnamed, s.pnamed)
+				f.hasPnamed = true
+			} else {
+				f.pnamed = append(f.pnamed, s.named)
+			}
 			f.assume = append(f.assume, s.assume...)
 			if s.via != "" {
 				f.via = true
@@ -1311,6 +1400,8 @@ func ruleFormulaSpec(c *Ctx) {
 		case same(f.named, e.named, f.via):
 			// (one-line helpers of the package are read in place in every form: a helper whose body changed changes
 			// the formulas of its callers)
+			return "named", nil
+		case f.hasPnamed && same(f.pnamed, e.named, f.via):
 			return "named", nil
 		case same(f.res, e.res, f.via):
 			return "res", nil
@@ -1603,6 +1694,65 @@ func ruleFormulaSpec(c *Ctx) {
 					continue
 				}
 			}
+			// … or the whole reviewed formula, locals read through, is what another place of the function computes today
+			// (the clamps of `c` moved into `return max(1, min(c, MAX))`): the formula is still there. Only a place
+			// that is not itself a reviewed target counts: two reviewed targets with one formula must not cover for
+			// each other
+			{
+				rev := map[string]bool{}
+				for _, o := range formulaTable {
+					if o.fn == e.fn {
+						rev[o.target] = true
+					}
+				}
+				movedTo := ""
+				for _, t := range sortedKeys(own) {
+					if t == e.target || rev[t] || movedTo != "" {
+						continue
+					}
+					g := own[t]
+					if (len(notAbsorbed(e.res)) > 0 && same(g.res, e.res, false)) || (len(notAbsorbed(e.ra)) > 0 && same(g.ra, e.ra, false) && same(g.res, e.res, false)) {
+						movedTo = t
+					}
+				}
+				if movedTo != "" {
+					verdicts[i] = verdict{"ok", "resmoved", own[movedTo].pos, fmt.Sprintf("same formula once locals are read through, now completed at %s: %s", movedTo, e.spec)}
+					continue
+				}
+			}
+			// … or target and value are the reviewed ones with a loop counter shifted by a constant in every index
+			// (`for i := n; i > 0; i--` over nodes[i-1] and deltas[i-1] for `i := n-1; i >= 0` over nodes[i] and
+			// deltas[i]): the same element-to-element formula; whether the loop's range moved with it is not read
+			// here — undecided. One index shifted and the other not (nodes[i] += deltas[i-1]) is not this.
+			if sh := uniformIndexShift(f.res, f.rtargets, e.res); sh != "" {
+				verdicts[i] = verdict{status: "missing", how: "newvar", pos: f.pos, msg: fmt.Sprintf("%s computes %s as {%s}: the reviewed formula {%s} with every index written %s; which elements that names depends on the range of the loop, which this rule does not read (%s)", e.fn, e.target, strings.Join(f.res, " ; "), strings.Join(e.res, " ; "), sh, e.spec)}
+				continue
+			}
+			// … or the target has become an induction variable (a counter stepped by a constant where the reviewed code
+			// wrote the closed form `= a*n + b`): a constant step carries nothing of the formula, the value follows from
+			// the loops around it, which this comparison does not read — undecided
+			{
+				steps, other := 0, false
+				for _, x := range f.named {
+					switch {
+					case constStepRe.MatchString(x):
+						steps++
+					case constInitRe.MatchString(x):
+					default:
+						other = true
+					}
+				}
+				reviewedSteps := false
+				for _, x := range e.named {
+					if strings.HasPrefix(x, "+= ") || strings.HasPrefix(x, "-= ") {
+						reviewedSteps = true
+					}
+				}
+				if steps > 0 && !other && !reviewedSteps {
+					verdicts[i] = verdict{status: "missing", how: "newvar", pos: f.pos, msg: fmt.Sprintf("%s now counts %s up by a constant {%s} where the reviewed code computed it in closed form {%s}: its value follows from the loops around it (%s)", e.fn, e.target, strings.Join(f.named, " ; "), strings.Join(e.named, " ; "), e.spec)}
+					continue
+				}
+			}
 			// or under another name in the function or a helper of it (the local was re-purposed)
 			verdicts[i] = verdict{"bad", "", f.pos, fmt.Sprintf("%s computes %s as {%s}; in canonical form that is {%s}, the reviewed formula is {%s} — spec: %s", e.fn, e.target, strings.Join(f.texts, " ; "), strings.Join(f.named, " ; "), strings.Join(e.named, " ; "), e.spec)}
 			continue
@@ -1732,7 +1882,7 @@ func ruleFormulaSpec(c *Ctx) {
 				continue
 			}
 			users++
-			if verdicts[j].status != "ok" || (verdicts[j].how != "res" && verdicts[j].how != "ra") {
+			if verdicts[j].status != "ok" || (verdicts[j].how != "res" && verdicts[j].how != "ra" && verdicts[j].how != "resmoved") {
 				allRes = false
 			}
 		}
